@@ -124,6 +124,22 @@ INCLUDES = [
     ("same relative include in two packages, the dependency's copy raises",
      "include('common.cond')\nrun_command(name='x', run=CMD, deps=['//sub:y'])\n",
      {"common.cond": "CMD = 'true'\n", "sub/common.cond": "raise ValueError('bad')\n", "sub/COND": "include('common.cond')\nrun_command(name='y', run='true')\n"}, False),
+    # one included file hands the SAME list object to tasks of two packages: ':setup' resolves per package
+    ("shared included deps list used by two packages, both define the task",
+     "run_command(name='x', run='true', deps=['//a:run', '//b:run'])\n",
+     {"lib/deps.cond": "D = [':setup']\n",
+      "a/COND": "include('//lib/deps.cond')\nrun_command(name='setup', run='true')\nrun_command(name='run', run='true', deps=D)\n",
+      "b/COND": "include('//lib/deps.cond')\nrun_command(name='setup', run='true')\nrun_command(name='run', run='true', deps=D)\n"}, True),
+    ("shared included deps list used by two packages, the second package lacks the task",
+     "run_command(name='x', run='true', deps=['//a:run', '//b:run'])\n",
+     {"lib/deps.cond": "D = [':setup']\n",
+      "a/COND": "include('//lib/deps.cond')\nrun_command(name='setup', run='true')\nrun_command(name='run', run='true', deps=D)\n",
+      "b/COND": "include('//lib/deps.cond')\nrun_command(name='run', run='true', deps=D)\n"}, False),
+    ("shared included deps list used by two packages, the first-listed package lacks the task",
+     "run_command(name='x', run='true', deps=['//b:run', '//a:run'])\n",
+     {"lib/deps.cond": "D = [':setup']\n",
+      "a/COND": "include('//lib/deps.cond')\nrun_command(name='setup', run='true')\nrun_command(name='run', run='true', deps=D)\n",
+      "b/COND": "include('//lib/deps.cond')\nrun_command(name='run', run='true', deps=D)\n"}, False),
     ("same relative include in two packages, the dependency's copy defines a task",
      "include('common.cond')\nrun_command(name='x', run=CMD, deps=['//sub:y'])\n",
      {"common.cond": "CMD = 'true'\n", "sub/common.cond": "run_command(name='z', run='true')\n", "sub/COND": "include('common.cond')\nrun_command(name='y', run='true')\n"}, False),
